@@ -182,6 +182,7 @@ fn err_kind(e: &io::Error) -> &'static str {
             io::ErrorKind::NotFound => "notFound",
             io::ErrorKind::AlreadyExists => "exists",
             io::ErrorKind::InvalidData => "invalid",
+            io::ErrorKind::InvalidInput => "invalidInput",
             _ => "io",
         }
     }
